@@ -39,6 +39,33 @@ package upstream
 //@   loop 0: invariant [backups]   forall a string :: uh.g_back[a] ==> exists i int :: 0 <= i && i <= $idx && opt.Servers[i].Backup && opt.Servers[i].Addr == a
 //@   loop 0: invariant [unchecked] uh.Policy == opt.Policy && uh.Ping == opt.HealthCheck
 
+// the option list built from the configuration: one option per configured upstream, each with its own
+// copy of that upstream's servers (no two options share a backing array)
+//@ func convertConfigs(configs []config.UpstreamConfig, fn OnStatus) (opts []UpstreamServerOption)
+//@   nopanic
+//@   modifies nothing
+//@   ensures [len] len(opts) == len(configs)
+//@   ensures [fields] forall i int :: 0 <= i && i < len(configs) ==> opts[i].Name == configs[i].Name && opts[i].Policy == configs[i].Policy && opts[i].HealthCheck == configs[i].HealthCheck
+//@                      && opts[i].AcceptEncoding == configs[i].AcceptEncoding && opts[i].EnableH2C == configs[i].EnableH2C && len(opts[i].Servers) == len(configs[i].Servers)
+//@   ensures [servers] forall i int, j int :: 0 <= i && i < len(configs) && 0 <= j && j < len(configs[i].Servers) ==>
+//@                      opts[i].Servers[j].Addr == configs[i].Servers[j].Addr && opts[i].Servers[j].Backup == configs[i].Servers[j].Backup
+//@   loop 0: modifies nothing
+//@   loop 0: invariant [idx] -1 <= $idx && $idx < len(configs) && len(opts) == $idx + 1 && fresh(opts)
+//@   loop 0: invariant [fields] forall i int :: 0 <= i && i <= $idx ==> opts[i].Name == configs[i].Name && opts[i].Policy == configs[i].Policy && opts[i].HealthCheck == configs[i].HealthCheck
+//@                      && opts[i].AcceptEncoding == configs[i].AcceptEncoding && opts[i].EnableH2C == configs[i].EnableH2C && len(opts[i].Servers) == len(configs[i].Servers)
+//@   loop 0: invariant [servers] forall i int, j int :: 0 <= i && i <= $idx && 0 <= j && j < len(configs[i].Servers) ==>
+//@                      opts[i].Servers[j].Addr == configs[i].Servers[j].Addr && opts[i].Servers[j].Backup == configs[i].Servers[j].Backup
+//@   loop 0: invariant [own] forall i int :: 0 <= i && i <= $idx ==> fresh(opts[i].Servers) && sbaseOf(opts[i].Servers) != sbaseOf(opts)
+//@   loop 1: modifies nothing
+//@   loop 1: invariant [idx] -1 <= $idx && $idx < len(item.Servers) && len(servers) == $idx + 1 && fresh(servers)
+//@   loop 1: invariant [outer] -1 <= $idx0 && $idx0 < len(configs) && len(opts) == $idx0 + 1 && fresh(opts) && sbaseOf(servers) != sbaseOf(opts)
+//@   loop 1: invariant [outer-fields] forall i int :: 0 <= i && i <= $idx0 ==> opts[i].Name == configs[i].Name && opts[i].Policy == configs[i].Policy && opts[i].HealthCheck == configs[i].HealthCheck
+//@                      && opts[i].AcceptEncoding == configs[i].AcceptEncoding && opts[i].EnableH2C == configs[i].EnableH2C && len(opts[i].Servers) == len(configs[i].Servers)
+//@   loop 1: invariant [outer-servers] forall i int, j int :: 0 <= i && i <= $idx0 && 0 <= j && j < len(configs[i].Servers) ==>
+//@                      opts[i].Servers[j].Addr == configs[i].Servers[j].Addr && opts[i].Servers[j].Backup == configs[i].Servers[j].Backup
+//@   loop 1: invariant [outer-own] forall i int :: 0 <= i && i <= $idx0 ==> fresh(opts[i].Servers) && sbaseOf(opts[i].Servers) != sbaseOf(opts) && sbaseOf(opts[i].Servers) != sbaseOf(servers)
+//@   loop 1: invariant [copied] forall j int :: 0 <= j && j <= $idx ==> servers[j].Addr == item.Servers[j].Addr && servers[j].Backup == item.Servers[j].Backup
+
 // the target handed to the proxy is exactly the server the pool picked; no server means an error at once
 //@ func newTargetPicker$1(c *elton.Context) (target *url.URL, pdone middleware.ProxyDone, err error)
 //@   requires [captured-pool] uh != nil
